@@ -406,7 +406,7 @@ def label_for(i):
 
 
 def make_cut_config(g, block, rng, kinds=("$", "<>"), share=0.0, style=None, prefix="F", label_offset=0,
-                    marks=None, cutmark="both"):
+                    marks=None, cutmark="both", share_hub=False):
     """
     Build the CGsmiles configuration of molecule g cut along partition `block` (node -> block id).
     Returns dict(base tokens, frags [[name, tokens]], member: atom -> set(blocks in base numbering),
@@ -445,6 +445,8 @@ def make_cut_config(g, block, rng, kinds=("$", "<>"), share=0.0, style=None, pre
             # share atom b with block of a: a's fragment gets a copy of b
             if rng.random() < 0.5:
                 a, b = b, a
+            if share_hub and g.degree(a) > g.degree(b):
+                a, b = b, a         # share the atom with more neighbours (atoms shared by many fragments)
         # an atom is shared into a given block at most once (two copies of one atom inside one
         # fragment would merge two atoms of the same fragment: degenerate, out of domain), and the
         # two ends of a bond are never both shared across it
